@@ -1392,6 +1392,10 @@ func runChanCase(c *ChanCase) *ChanResult {
 			if len(inIO) > 1 {
 				w.fail("C09", "concurrent-transport-writers", fmt.Sprintf("%v stand in transport write/flush calls at the same time: nothing orders their bytes on the wire", inIO))
 				w.fail("C01", "concurrent-transport-writers", fmt.Sprintf("%v stand in transport write/flush calls at the same time", inIO))
+				if netty.VerifState(w.ch).Closed == 1 && w.winner != "" {
+					// Close has taken over (or believes nobody is sending) while a sender is still inside a batch
+					w.fail("C06", "drain-while-sender-writes", fmt.Sprintf("after Close began, %v stand in transport write/flush calls at the same time: Close did not wait for the sender's batch", inIO))
+				}
 			}
 		}
 		for _, ws := range c.Writers {
